@@ -169,9 +169,21 @@ def step (s : OSt) (op impl : String) : OSt × StepOut :=
   match w with
   | ["idle", lr, fae, idl, kap, kai, kps, _rtt, _mad] => (s, idleStep lr fae idl kap kai kps iw)
   | ["nego", cfg, peer, kap] =>
-    let (idle, kai) := negotiate (intOf cfg) (intOf peer) (intOf kap)
-    (s, { model := s!"{idle} {kai}", tags := [if decide (intOf peer > 0 ∧ intOf peer < intOf cfg) then "nego:peer" else "nego:cfg",
-                                              if intOf kap ≤ idle / 2 then "nego:kap" else "nego:half"] })
+    -- the value the endpoint advertises: populateConfig turns 0 into the default
+    let l : Int := if intOf cfg = 0 then Uquic.Gen.Protocol.DefaultIdleTimeout else intOf cfg
+    let p : Int := intOf peer
+    let (idle, kai) := negotiate l p (intOf kap)
+    -- RFC 9000 10.1, independent of the model: "the effective value … is computed as the minimum of the two
+    -- advertised values (or the sole advertised value, if only one endpoint advertises a non-zero value)"
+    let rfc : Int := if p = 0 then l else if l = 0 then p else (if l < p then l else p)
+    let got := intOf (iw.headD "0")
+    let fails := if got ≠ rfc then
+        [("negotiated_idle_rfc", "-", s!"local max_idle_timeout {l} ns, peer {p} ns (0 = absent): effective idle timeout {got} ns, RFC 9000 10.1 says {rfc}")]
+      else []
+    (s, { model := s!"{idle} {kai}", fails := fails,
+          tags := [if p = 0 then "nego:peer-absent" else if decide (p < l) then "nego:peer" else "nego:cfg",
+                   if intOf cfg = 0 then "nego:local-default" else "nego:local-set",
+                   if intOf kap ≤ idle / 2 then "nego:kap" else "nego:half"] })
   | ["timer", lr, fae, cr, idl, kap, kai, kps, hc, hit, _rtt, _mad, blk, _ack, loss, pace] =>
     let pto := intOf (iw.headD "0")
     let alarm := optInt (iw.getD 1 "-") now0
